@@ -14,6 +14,7 @@ type plugCore struct {
 	rec    *Rec
 	mu     sync.Mutex
 	veto   string // stage at which this plugin returns a non-OK verdict ("" = never)
+	vkind  string // "veto" (default) or "panic"
 	fired  bool
 	Events []string
 }
@@ -34,14 +35,32 @@ func (p *plugCore) hit(stage string, seq int32) *erpc.Status {
 	verdict := "ok"
 	if v {
 		verdict = "veto"
+		if p.vkind == "panic" {
+			verdict = "panic"
+		}
 	}
 	if stage != "PreReadHeader" || v {
 		p.rec.Emit("Hook", "side", p.side, "pl", p.name, "stage", stage, "seq", seq, "verdict", verdict)
 	}
 	if v {
+		if p.vkind == "panic" {
+			panic("scripted plugin panic at " + stage)
+		}
 		return VetoStatus()
 	}
 	return nil
+}
+
+// SetPanic makes the plugin panic instead of returning a status at its veto stage.
+func SetPanic(pl erpc.Plugin) {
+	switch x := pl.(type) {
+	case *PlugAll:
+		x.vkind = "panic"
+	case *PlugHdr:
+		x.vkind = "panic"
+	case *PlugBody:
+		x.vkind = "panic"
+	}
 }
 
 func seqOfRead(c erpc.ReadCtx) int32   { return c.Seq() }
